@@ -241,7 +241,17 @@ func (e *Engine) zeroVal(t types.Type) Val {
 
 // typeKey gives a short stable identifier for a type (used in heap map names).
 func typeKey(t types.Type) string {
+	t = types.Unalias(t)
+	if b, ok := t.Underlying().(*types.Basic); ok {
+		t = b
+		if b.Kind() == types.Uint8 {
+			t = types.Typ[types.Uint8]
+		}
+	}
 	s := types.TypeString(t, func(p *types.Package) string { return p.Name() })
+	if s == "byte" {
+		s = "uint8"
+	}
 	r := strings.NewReplacer("*", "P", "[", "_", "]", "_", ".", "_", " ", "", "{", "_", "}", "_", ",", "_", "(", "_", ")", "_", ";", "_", "/", "_")
 	return r.Replace(s)
 }
